@@ -1213,6 +1213,18 @@ func (w *progWorld) install() {
 					perr = fmt.Sprint(e)
 				}
 			}()
+			if L.CheckInt(1)%2 == 1 {
+				// every other probe goes through the debug library (level 2 from inside debug.setlocal called by
+				// this host function = the Lua function under test)
+				top0 := L.GetTop()
+				if err := L.CallByParam(lua.P{Fn: L.GetField(L.GetGlobal("debug"), "setlocal"), NRet: 1, Protect: true}, lua.LNumber(2), lua.LNumber(no), sentinel); err != nil {
+					perr = "debug.setlocal raised: " + err.Error()
+				} else if sv, ok := L.Get(-1).(lua.LString); ok {
+					name = string(sv)
+				}
+				L.SetTop(top0)
+				return
+			}
 			name = L.SetLocal(dbg, no, sentinel)
 		}()
 		if perr != "" {
